@@ -125,9 +125,11 @@ CLAIMED = {
              "REAL parser, that every error renders with existing cited lines, and that each rendered diagnostic (colour codes and "
              "[x.py:n] entries stripped) equals the model's text is checked by the harness on random text, every kind of prefix, token-level "
              "mutations, out-of-domain literals, line-ending conventions and errors of every stage placed deep inside imported modules.",
-        note="Partial in one respect: exception propagation (Lark VisitError, beartype, assert) is CPython behaviour a model cannot exhibit; "
-             "lines cited by errors of the transformer stage (semantic errors) are token lines by construction of the model but not separately "
-             "stated as a theorem.",
+        note="Partial in one respect: exception propagation (Lark VisitError, beartype, assert) is CPython behaviour a model cannot exhibit. "
+             "C11_all_error_lines covers every stage (lexical, syntax, elaboration, imports to any depth): each entry of every error chain of "
+             "the reference loader cites an existing line of a file of the tree; C11_load_errors_render_partial: such a chain renders when the "
+             "registry holds each file under its (unambiguous) base name - namesake module files, which the implementation tells apart by full "
+             "path, are covered by the correspondence only.",
         technique="Lean 4 proof (totality, cited-line bounds for lexer and parser, rendering model of Logger.error) + malformed-input streams and rendered-text correspondence against the real parser",
         ref="DESIGN.md section 8, C11"),
     "C20": dict(
